@@ -253,6 +253,13 @@ pub fn error_variant(e: &Error) -> String {
 
 /// Non-blocking dump of a context: entries sorted by name, `Some(v)` for a variable and
 /// `None` for a function.  `Err("poisoned")` / `Err("locked")` when `try_lock` fails.
+/// A second handle onto the same context (what `ctx.clone()` would be if `Context` derived `Clone`):
+/// lets the replay call the public `execute(text, ctx)` — which takes the context by value — and
+/// still inspect the context afterwards.
+pub fn ctx_share(ctx: &crate::Context) -> crate::Context {
+    crate::context::Context(ctx.0.clone())
+}
+
 pub fn ctx_dump(ctx: &crate::Context) -> Result<Vec<(String, Option<crate::Value>)>, &'static str> {
     use std::sync::TryLockError;
     let guard = match ctx.0.try_lock() {
